@@ -53,6 +53,8 @@ def decorate(g, rnd, actions=True, plain=False):
         style = rnd.random()
         lit = bool(t['lit'])
         tag = t['tag'] or None
+        if lit and i in used_in_rules and rnd.random() < 0.5:
+            tag = None                            # a character literal is usually just written in the rules
         if lit:
             if i in prec_of and style < 0.5:
                 declared_via_prec.add(i)          # only in the precedence line
